@@ -30,7 +30,7 @@ func init() {
 	register("C20", "histories of API calls (constructors, accessors, operation methods, marks, ValueSet/PathSet/Path/Walk) interleaved with caller mutations of every Go object passed in or handed back; "+
 		"scripted aliasing scenarios (every accessor/constructor x mutation of its result/argument) + random histories; valid calls outside the model's fragment are executed and judged by (S) only (tags outside-model:*); "+
 		"goroutines: 2-4 REAL goroutines run a history each over a shared state (read-only API on shared data, mutation of their own), diffed against the driver's arena/one-heap interleaving semantics (op heap.conc) and against their own sequential results; "+
-		"S-only scenarios for API outside the model (tags d1:*); purity repeats; -race worker with 2-16 goroutines (quick: 2 short runs when the race build is cached; thorough: 15 long runs) "+
+		"S-only scenarios for API outside the model (tags d1:*); Set.Values / ValueSet.Values / AsValueSlice of a set / PathSet.List / convert.Unify(tuples, lists) / UnmarkDeepWithPaths / PathSet.Union / PathSet.Subtract inside the ordinary histories, diffed against the driver op heapx.run incl. len/cap/backing-array identity (steps x*, tag d2:*); purity repeats; -race worker with 2-16 goroutines (quick: 2 short runs when the race build is cached; thorough: 15 long runs) "+
 		"(the -race runs SUPPORT the model's write sets — API calls write only what they allocate — under the schedules that occurred; they are not a proof of race freedom, and the Go memory model is not modelled). "+
 		"non-trivial = history (goroutine programs included) of >= 4 steps with >= 1 caller mutation; distinct = distinct canonical history strings; purity / derived / d1 evaluations are counted as evaluations only", runC20)
 }
@@ -313,7 +313,7 @@ func (r *c20Run) finish() {
 		// a valid call the model does not cover was executed on the real code and judged by (S): no correspondence case
 		r.ctx.Tag("outside-model:" + r.h.outside)
 	} else {
-		r.ctx.Add("heap.run", impl, r.wires...)
+		r.ctx.Add(map[bool]string{false: "heap.run", true: "heapx.run"}[r.h.ext], impl, r.wires...)
 	}
 	r.ctx.Eval(strings.Join(r.wires, " "), len(r.wires) >= 4 && r.nMut >= 1)
 }
@@ -592,5 +592,6 @@ func runC20(ctx *Ctx) {
 	c20derived(ctx)
 	c20conc(ctx)
 	c20d1(ctx)
+	c20d2(ctx)
 	c20race(ctx) // quick: 2 short runs when the -race build is cached; thorough: 15 long runs
 }
